@@ -164,7 +164,10 @@ class Batch:
                     verdict, model = v2, res[other][1]
                     rec["decided_by"] = other
             expect = it["expect"]
-            if verdict == expect:
+            it["verdict"] = verdict
+            if expect == "info":
+                run.add_obligation(it["name"], "mir-smt", "twin-ok" if verdict == "sat" else "info", **rec)
+            elif verdict == expect:
                 run.add_obligation(it["name"], "mir-smt", "holds" if expect == "unsat" else "twin-ok", **rec)
                 run.vccs += 1
             elif expect == "unsat" and verdict == "sat":
@@ -180,7 +183,9 @@ class Batch:
             else:
                 run.add_obligation(it["name"], "mir-smt", "inconclusive", **rec)
                 run.inconclusive.append("%s: solver answered %s" % (it["name"], verdict))
+        done = self.items
         self.items = []
+        return done
 
 
 def refine(ms, sem, decls, asserts, model, input_names, timeout_s=120, path=None):
